@@ -10,11 +10,7 @@ NaN = float("nan")
 
 META = {
     "level": "exploration",
-    "rule": ("input = cube case of C02 x fact class (float64/int64, 1 or 2-3 columns, NaN-marked or (values, validity) "
-             "with garbage under False, missing density 0/.2/.6/1) x weight class (none, scalar, array, (values, validity); "
-             ">=0 with zeros) x ignore_missing x dense dtype class (unsigned from to_array(), signed, int64) x "
-             "explicit/inferred shape; each judged for count, valid_count, sum, mean on ccube and on two xcubes. "
-             "Non-trivial: >=1 dimension, >=1 missing input row, >=1 non-missing output cell; distinct by content hash"),
+    "rule": ("input = cube case of C02 x fact class (float64/int64, 1 or 2-3 columns, NaN-marked or (values, validity) with garbage under False, missing density 0/.2/.6/1) x weight class (none, scalar, array, (values, validity); >=0 with zeros) x ignore_missing x dense dtype class (unsigned from to_array(), signed, int64) x explicit/inferred shape; each judged for count, valid_count, sum, mean on ccube and on two xcubes; counter-boundary cells, >1024 cells, cells of very unequal weight, all-tiny weights (x 2^-30, 2^-40), missing scalar weights, one object as two dimensions, the same argument objects for every call, pooled evaluation, calculate([...]) with untraced function objects. Non-trivial: >=1 dimension, >=1 missing input row, >=1 non-missing output cell; distinct by content hash"),
     "require": {t: ["class:fact=cols", "class:fact=1col", "class:w=scalar", "class:w=tuple", "class:w=array",
                     "class:w=none", "class:ignore", "class:propagate", "class:xdtype=from_index", "class:xdtype=signed",
                     "class:ndims=0", "class:ndims>=3", "class:xshape=inferred", "class:fact=int",
